@@ -119,9 +119,12 @@ Definition ref_denied (gs : list grant) (k : route_kind) (route_ns : string) (r 
   negb (service_ok gs k route_ns (ref_target route_ns r)).
 
 (* group and kind of the backendRef designate a Service *)
-Definition ref_shape_ok (r : backend_ref) : bool :=
+Definition ref_kind_ok (r : backend_ref) : bool :=
   match br_group r with Some g => (g =? "core") || (g =? "") | None => true end &&
   match br_kind r with Some k => k =? "Service" | None => true end.
+
+(* ... and it carries no (unsupported) backendRef filters *)
+Definition ref_shape_ok (r : backend_ref) : bool := negb (br_filters r) && ref_kind_ok r.
 
 Definition ref_oracle (gs : list grant) (k : route_kind) (route_ns : string) (conds : list cond)
            (r : backend_ref) (o : bref_out) : bool :=
